@@ -46,20 +46,25 @@ LeT(a, b) == a[1] < b[1] \/ (a[1] = b[1] /\ a[2] <= b[2])          \* <<seconds,
 JudgeClock(o) ==
     IF o.id \notin {0, 1, 2, 3} THEN o.errno = 28 /\ ~o.wrote
     ELSE /\ o.errno = 0 /\ o.wrote
-         /\ (o.id \in {0, 1} => (LeT(o.before, o.t) /\ LeT(o.t, o.after)))
+         \* the value lies between two readings of the SAME clock taken by the calling thread around the call
+         \* (0 realtime, 1 monotonic, 2 CPU time of the process, 3 CPU time of the calling thread)
+         /\ LeT(o.before, o.t) /\ LeT(o.t, o.after)
          /\ (o.id = 1 => LeT(o.prev, o.t))
 JudgeRandom(o) == /\ o.errno = 0 /\ o.outside = 0
                   /\ (o.len >= 16 => (o.run1 < 16 \/ o.run2 < 16))
                   /\ (o.len > 0 /\ o.len < 16 => TRUE)
 JudgeExit(o) == ~o.returned /\ o.status = o.code % 256
+\* thread-spawn: every spawn names the module it was issued from (mod) and whether that module exports wasi_thread_start
+\* (hasStart); a start record names the module whose start function ran (mod), with which identifier and argument
 JudgeSpawn(o) ==
-    IF ~o.hasStart THEN \A i \in 1..Len(o.spawns) : o.spawns[i].neg
-    ELSE /\ \A i \in 1..Len(o.spawns) : ~o.spawns[i].neg /\ o.spawns[i].tid > 0
-         /\ \A i, j \in 1..Len(o.spawns) : i # j => o.spawns[i].tid # o.spawns[j].tid
-         /\ Len(o.starts) = Len(o.spawns)
-         /\ \A i \in 1..Len(o.spawns) : Cardinality({j \in 1..Len(o.starts) : o.starts[j].tid = o.spawns[i].tid /\ o.starts[j].arg = o.spawns[i].arg}) = 1
-         /\ \A j \in 1..Len(o.starts) : o.starts[j].shared /\ ~o.starts[j].parentinstance
-         /\ o.cell = Len(o.spawns)
+    LET ok == {i \in 1..Len(o.spawns) : o.spawns[i].hasStart} IN
+    /\ \A i \in 1..Len(o.spawns) : IF i \in ok THEN ~o.spawns[i].neg /\ o.spawns[i].tid > 0 ELSE o.spawns[i].neg
+    /\ \A i, j \in ok : i # j => o.spawns[i].tid # o.spawns[j].tid
+    /\ Len(o.starts) = Cardinality(ok)
+    /\ \A i \in ok : Cardinality({j \in 1..Len(o.starts) : /\ o.starts[j].tid = o.spawns[i].tid /\ o.starts[j].arg = o.spawns[i].arg
+                                                             /\ o.starts[j].mod = o.spawns[i].mod}) = 1
+    /\ \A j \in 1..Len(o.starts) : o.starts[j].shared /\ ~o.starts[j].parentinstance
+    /\ o.cell = Cardinality(ok)
 VARIABLE k
 Init == k = 0 /\ TLCSet(1, <<>>)
 Next == k < Len(In) /\ k' = k + 1
